@@ -9,6 +9,7 @@ import (
 	"runtime"
 	"strings"
 	"sync"
+	"sync/atomic"
 	"time"
 
 	"github.com/mandykoh/prism/ciexyz"
@@ -186,6 +187,7 @@ func runC03(r *core.Run) {
 		fromFirst := strings.Contains(r.Variant, "xyzfirst")
 		var wg sync.WaitGroup
 		stagger := strings.Contains(r.Variant, "stagger")
+		var arrive [8]atomic.Int32
 		start := make(chan struct{})
 		for g := 0; g < 8; g++ {
 			wg.Add(1)
@@ -202,7 +204,13 @@ func runC03(r *core.Run) {
 						r.Violate("first-use", "panic", fmt.Sprintf("first XYZ conversion panicked: %v", p), c03Case{Kind: "first-use"})
 					}
 				}()
-				for _, s := range libSpaces {
+				for si, s := range libSpaces {
+					// a spin barrier in front of every space, so that the eight first calls into
+					// that space's conversion arrive within a fraction of a microsecond of one another
+					arrive[si].Add(1)
+					for arrive[si].Load() < 8 {
+						runtime.Gosched()
+					}
 					rr, gg, bb, ww := c04DeclXY(s)
 					ref, ok := refcolor.RGBToXYZ(rr, gg, bb, ww)
 					if !ok {
